@@ -351,6 +351,7 @@ func runCase(cs caseSpec, pick func(step int, enabled []int) int) *result {
 	step := 0
 	s := verifsched.New(func(en []int) int { k := pick(step, en); step++; return k })
 	s.MaxSteps = 200000
+	s.Exclusive = true // no engine is started: only this run's threads touch the connection and the timer
 	s.OnAcquire, s.OnRelease = rc.onAcquire, rc.onRelease
 	s.OnSpawn = func(parent, child *verifsched.Thread) {
 		// the `go` statement of Timer.Async: the submission in progress on the parent started a drainer
